@@ -286,6 +286,13 @@ static void case_random(vh_rng* r, long index) {
     var f = new(File, $S(path), $S("w"));
     int p0 = (int)vh_below(r, 5);
     int fret = -1;
+    if (vh_chance(r, 25)) {
+      /* the sink's history does not matter: a read the write-only File refused earlier (IOError, handled) leaves the
+         stream open and writable, and C's fprintf on a stream with that history writes as ever */
+      char junk[4]; var exc0 = NULL;
+      VH_CATCH(sread(f, junk, sizeof junk), exc0);
+      if (exc0) { vh_count("file_sink_runs_after_a_refused_read"); }
+    }
     VH_CATCH(fret = print_to_with(f, p0, fmt, args), exc);
     sclose(f);
     del(f);
